@@ -196,6 +196,9 @@ func (run *c19OvRun) batch(calls []*c19OvCall, perm func(n int) []int) []*c19OvC
 		}
 		if !c19OvWait(func() bool { return c19OvParked(false) == k+1 }) {
 			run.stuck = true
+			buf := make([]byte, 1<<20)
+			buf = buf[:runtime.Stack(buf, true)]
+			fmt.Println("STUCK-LOCK", k, string(buf))
 		}
 	}
 	srv.mtx.RUnlock()
